@@ -29,8 +29,12 @@ static const uint16_t kDev[3] = {0, 0x0102, 0xFFFF};          // 0 (the id of a 
 static const uint32_t kIf[2] = {0, 0x8000000Au};             // 0 (what a zeroed payload reads as) and an id with the sign bit set
 
 // packet ids: cm: 100 + d*10 + v ; if: 1000 + d*100 + i*10 + v ; data: 5000 + d
-static Packet cmPacket(int d, int v)
+// Capture-module status variants: 0 base; 1 another payload (smaller uptime, other serial) AND another header; 2 the payload of
+// variant 0 byte for byte with another header only (timestamp, stream id, flags, vendor id) - one input per shortcut: a change
+// of the payload alone, of the header alone, and of both
+static Packet cmPacket(int d, int v3)
 {
+    const int v = v3 == 2 ? 0 : v3;
     CaptureModulePayload p;
     // the two variants disagree about "later": the second has the greater header timestamp and the SMALLER uptime (as after a restart of
     // the device), so going from one to the other either way moves the two clocks in opposite directions - the tracker keeps the
@@ -41,7 +45,14 @@ static Packet cmPacket(int d, int v)
     k.setPayload(p);
     k.setDeviceId(kDev[d]);
     k.setStreamId((uint8_t) (v + 1));
-    k.setTimestamp(100 + d * 10 + v);
+    k.setTimestamp(100 + d * 10 + v3);
+    if (v3 == 2)
+    {
+        k.setStreamId(9);
+        k.setCommonFlags(0x02);
+        k.setVendorId(0x0203);
+        return k;
+    }
     if (v)
         k.setInterfaceId(kIf[1]);   // an attribute without meaning for a capture-module status message
     // the second variant looks like what a decoder hands over for a status message that arrived in segments: the reassembled
@@ -117,7 +128,7 @@ static std::vector<Op> alphabet()
 {
     std::vector<Op> a;
     for (int d = 0; d < 3; ++d)
-        for (int v = 0; v < 2; ++v)
+        for (int v = 0; v < 3; ++v)
             a.push_back({'C', d, 0, v});
     for (int d = 0; d < 3; ++d)
         for (int i = 0; i < 2; ++i)
@@ -167,13 +178,15 @@ struct Sys
 
 struct Pool
 {
-    Packet cm[3][2], ifp[3][2][2], data[3];
-    obs::PObs ocm[3][2], oif[3][2][2];
+    Packet cm[3][3], ifp[3][2][2], data[3];
+    obs::PObs ocm[3][3], oif[3][2][2];
     Pool()
     {
         for (int d = 0; d < 3; ++d)
         {
             data[d] = dataPacket(d);
+            cm[d][2] = cmPacket(d, 2);
+            ocm[d][2] = obs::observe(cm[d][2]);
             for (int v = 0; v < 2; ++v)
             {
                 cm[d][v] = cmPacket(d, v);
